@@ -505,3 +505,38 @@ fn d12_trace_counts_after_a_change_set_equal_those_of_a_rebuild() {
     let b = serde_json::to_value(&scr).unwrap();
     assert_eq!(a["match_traces"], b["match_traces"]);
 }
+
+/// D22 (C07, R07.1): a `request_time` variable formats the request's `created_at` with chrono's
+/// `to_rfc2822`, which panics (documented) for a year outside 0..=9999 — and `created_at` is parsed from
+/// the caller's string, which may say `+10000-01-01T00:00:00Z`.
+#[test]
+fn d22_request_time_variable_with_a_five_digit_year_does_not_panic() {
+    let cfg: RouterConfig = serde_json::from_str("{}").unwrap();
+    let mut router = Router::<Rule>::from_config(cfg.clone());
+    router.insert(rule(
+        r#"{"id":"r1","rank":1,"source":{"path":"/a"},"target":"/b?t=@when","status_code":302,"variables":[{"name":"when","type":"request_time"}]}"#,
+    ));
+    let mut q = req(&cfg, "/a", None, None);
+    q.set_created_at(Some("+10000-01-01T00:00:00Z".to_string()));
+    assert!(q.created_at.is_some(), "the five-digit year is accepted by the parser");
+    let res = std::panic::catch_unwind(|| {
+        let mut action = Action::from_routes_rule(router.match_request(&q), &q, None);
+        action.get_status_code(0, None)
+    });
+    assert!(res.is_ok(), "Action::from_routes_rule panicked on a request dated in year 10000");
+}
+
+/// D23 (C08, R08.6 / R08.9): storing a value under an existing (pattern, id) must replace it, also when the
+/// pattern equals the prefix of the node it lives under, and also below a node with a multi-byte prefix.
+#[test]
+fn d23_reinserting_a_pattern_equal_to_a_node_prefix_replaces() {
+    use redirectionio::regex_radix_tree::RegexTreeMap;
+    for pats in [["/a/b", "/a/b/c"], ["m\u{fc}ller", "m\u{fc}ller\\-shop"]] {
+        let mut t: RegexTreeMap<String> = RegexTreeMap::new(false);
+        t.insert(pats[0], "1", "old".to_string());
+        t.insert(pats[1], "2", "other".to_string());
+        t.insert(pats[0], "1", "new".to_string());
+        assert_eq!(t.len(), 2, "len after re-inserting ({}, 1)", pats[0]);
+        assert_eq!(t.get(pats[0]), vec![&"new".to_string()], "get({})", pats[0]);
+    }
+}
